@@ -432,7 +432,9 @@ theorem Helper.closedOf_ll {h : Helper} {vac : List Nat} (wf : h.WF) (ll : h.LL 
           intro x hx
           rw [List.mem_filter] at hx
           exact ⟨(ll.active hx.1).1, by simpa using hx.2⟩)
-      rw [Nat.add_mul, Nat.one_mul] at this
+      have e2 : (h.activeStart + 1) * h.blockLen - h.activeStart * h.blockLen = h.blockLen := by
+        rw [Nat.add_mul, Nat.one_mul]; omega
+      rw [e2] at this
       omega
     · cases hcb
   · rename_i hcb
@@ -521,5 +523,432 @@ theorem Helper.resetLoop_links {n idx : Nat} {h h' : Helper} (wf : h.WF)
         rw [this.1, this.2, hN, hP, if_pos rfl, if_pos rfl]
         exact ⟨rfl, rfl⟩
       · exact c2 m (by omega) (by omega)
+
+theorem Helper.mod_eq_iff {h : Helper} (wf : h.WF) {a x : Nat} (aa : h.Active a)
+    (ax : h.Active x) : a % h.cap = x % h.cap ↔ a = x :=
+  ⟨Helper.active_mod_inj wf aa ax, fun e => by rw [e]⟩
+
+/-- `splice` with a non-empty list: success and the new links. -/
+theorem Helper.splice_some {h2 : Helper} {hd o e : Nat} (wf : h2.WF) (hh : h2.head = some hd)
+    (a1 : h2.Active hd) (a2 : h2.Active o) (a3 : h2.Active (e - 1))
+    (a4 : h2.Active (h2.prevOf hd)) :
+    ∃ h', h2.splice o e = .ok h' ∧ h'.head = some hd ∧
+      (∀ x, h2.Active x → h'.nextOf x =
+        if x = e - 1 then hd else if x = h2.prevOf hd then o else h2.nextOf x) ∧
+      (∀ x, h2.Active x → h'.prevOf x =
+        if x = hd then e - 1 else if x = o then h2.prevOf hd else h2.prevOf x) := by
+  have a4' : h2.off (h2.prev.getD (hd % h2.cap) 0) = .ok (h2.prevOf hd % h2.cap) :=
+    Helper.off_active a4
+  have hsz : ∀ x, x % h2.cap < h2.next.size := fun x => h2.mod_cap_lt wf x
+  have hszp : ∀ x, x % h2.cap < h2.prev.size := fun x => by
+    rw [wf.size_prev, ← wf.cap_eq]; exact h2.mod_cap_lt wf x
+  refine ⟨{ h2 with
+      next := (h2.next.setIfInBounds (h2.prevOf hd % h2.cap) o).setIfInBounds
+        ((e - 1) % h2.cap) hd,
+      prev := (h2.prev.setIfInBounds (o % h2.cap) (h2.prevOf hd)).setIfInBounds
+        (hd % h2.cap) (e - 1) }, ?_, hh, ?_, ?_⟩
+  · unfold Helper.splice
+    rw [hh]
+    simp only [Helper.off_active a1, Helper.off_active a2, Helper.off_active a3, a4']
+    rfl
+  · intro x ax
+    show ((h2.next.setIfInBounds (h2.prevOf hd % h2.cap) o).setIfInBounds
+        ((e - 1) % h2.cap) hd).getD (x % ((h2.next.setIfInBounds (h2.prevOf hd % h2.cap)
+          o).setIfInBounds ((e - 1) % h2.cap) hd).size) 0 = _
+    rw [Array.size_setIfInBounds, Array.size_setIfInBounds,
+      getD_set_ite _ _ _ _ _ (by rw [Array.size_setIfInBounds]; exact hsz _),
+      getD_set_ite _ _ _ _ _ (hsz _)]
+    show (if (e - 1) % h2.cap = x % h2.cap then hd else
+      if h2.prevOf hd % h2.cap = x % h2.cap then o else h2.nextOf x) = _
+    simp only [Helper.mod_eq_iff wf a3 ax, Helper.mod_eq_iff wf a4 ax, eq_comm (a := x)]
+  · intro x ax
+    show ((h2.prev.setIfInBounds (o % h2.cap) (h2.prevOf hd)).setIfInBounds
+        (hd % h2.cap) (e - 1)).getD (x % ((h2.next.setIfInBounds (h2.prevOf hd % h2.cap)
+          o).setIfInBounds ((e - 1) % h2.cap) hd).size) 0 = _
+    rw [Array.size_setIfInBounds, Array.size_setIfInBounds,
+      getD_set_ite _ _ _ _ _ (by rw [Array.size_setIfInBounds]; exact hszp _),
+      getD_set_ite _ _ _ _ _ (hszp _)]
+    show (if hd % h2.cap = x % h2.cap then e - 1 else
+      if o % h2.cap = x % h2.cap then h2.prevOf hd else h2.prevOf x) = _
+    simp only [Helper.mod_eq_iff wf a1 ax, Helper.mod_eq_iff wf a2 ax, eq_comm (a := x)]
+
+/-- `splice` with an empty list: success and the new links. -/
+theorem Helper.splice_none {h2 : Helper} {o e : Nat} (wf : h2.WF) (hh : h2.head = none)
+    (a2 : h2.Active o) (a3 : h2.Active (e - 1)) :
+    ∃ h', h2.splice o e = .ok h' ∧ h'.head = some o ∧
+      (∀ x, h2.Active x → h'.nextOf x = if x = e - 1 then o else h2.nextOf x) ∧
+      (∀ x, h2.Active x → h'.prevOf x = if x = o then e - 1 else h2.prevOf x) := by
+  have hsz : ∀ x, x % h2.cap < h2.next.size := fun x => h2.mod_cap_lt wf x
+  have hszp : ∀ x, x % h2.cap < h2.prev.size := fun x => by
+    rw [wf.size_prev, ← wf.cap_eq]; exact h2.mod_cap_lt wf x
+  refine ⟨{ h2 with prev := h2.prev.setIfInBounds (o % h2.cap) (e - 1),
+                    next := h2.next.setIfInBounds ((e - 1) % h2.cap) o,
+                    head := some o }, ?_, rfl, ?_, ?_⟩
+  · unfold Helper.splice
+    rw [hh]
+    simp only [Helper.off_active a2, Helper.off_active a3]
+  · intro x ax
+    show (h2.next.setIfInBounds ((e - 1) % h2.cap) o).getD
+      (x % (h2.next.setIfInBounds ((e - 1) % h2.cap) o).size) 0 = _
+    rw [Array.size_setIfInBounds, getD_set_ite _ _ _ _ _ (hsz _)]
+    show (if (e - 1) % h2.cap = x % h2.cap then o else h2.nextOf x) = _
+    simp only [Helper.mod_eq_iff wf a3 ax, eq_comm (a := x)]
+  · intro x ax
+    show (h2.prev.setIfInBounds (o % h2.cap) (e - 1)).getD
+      (x % (h2.next.setIfInBounds ((e - 1) % h2.cap) o).size) 0 = _
+    rw [Array.size_setIfInBounds, getD_set_ite _ _ _ _ _ (hszp _)]
+    show (if o % h2.cap = x % h2.cap then e - 1 else h2.prevOf x) = _
+    simp only [Helper.mod_eq_iff wf a2 ax, eq_comm (a := x)]
+
+theorem Helper.splice_links {h2 : Helper} {l : List Nat} {o m : Nat} (wf : h2.WF) (hm : 0 < m)
+    (hl : ∀ x ∈ l, h2.Active x ∧ x < o)
+    (hnewA : ∀ j, j < m → h2.Active (o + j))
+    (nd : l.Nodup)
+    (hhd : h2.head = l.head?)
+    (cn : CycNext h2.nextOf l) (cp : CycPrev h2.prevOf l)
+    (hn : ∀ j, j + 1 < m → h2.nextOf (o + j) = o + j + 1)
+    (hp : ∀ j, j + 1 < m → h2.prevOf (o + j + 1) = o + j) :
+    ∃ h', h2.splice o (o + m) = .ok h' ∧ h'.head = (l ++ List.range' o m).head? ∧
+      CycNext h'.nextOf (l ++ List.range' o m) ∧ CycPrev h'.prevOf (l ++ List.range' o m) := by
+  have aO : h2.Active o := hnewA 0 hm
+  have elast : o + m - 1 = o + (m - 1) := by omega
+  have aE : h2.Active (o + m - 1) := by rw [elast]; exact hnewA _ (by omega)
+  by_cases hn0 : l.length = 0
+  · have : l = [] := List.length_eq_zero_iff.1 hn0
+    subst this
+    obtain ⟨h', e, ehd, sn, sp⟩ := Helper.splice_none (e := o + m) wf hhd aO aE
+    refine ⟨h', e, ?_, ?_, ?_⟩
+    · rw [ehd, List.nil_append, List.head?_range', if_neg (by omega)]
+    · apply CycNext.append_range hm
+      · intro a b ha; simp at ha
+      · intro j hj
+        rw [sn _ (hnewA j (by omega)), if_neg (by omega), hn j hj]
+      · rw [sn _ aE, if_pos rfl]; simp
+      · intro h0; simp at h0
+    · apply CycPrev.append_range hm
+      · intro a b ha; simp at ha
+      · intro j hj
+        rw [sp (o + j + 1) (by rw [Nat.add_assoc]; exact hnewA (j + 1) (by omega)), if_neg (by omega), hp j hj]
+      · have : ([] ++ List.range' o m)[0]'(by simp; omega) = o := by simp
+        rw [this, sp _ aO, if_pos rfl]
+      · intro h0; simp at h0
+  · have hpos : 0 < l.length := by omega
+    have act : ∀ k (hk : k < l.length), h2.Active l[k] ∧ l[k] < o := fun k hk =>
+      hl _ (List.getElem_mem hk)
+    have hhd' : h2.head = some l[0] := by
+      rw [hhd, List.head?_eq_getElem?, List.getElem?_eq_getElem]
+    have etail : h2.prevOf l[0] = l[l.length - 1] :=
+      cp (l.length - 1) 0 (by omega) hpos (Or.inr ⟨by omega, rfl⟩)
+    obtain ⟨h', e, ehd, sn, sp⟩ := Helper.splice_some (e := o + m) wf hhd' (act 0 hpos).1 aO aE
+      (by rw [etail]; exact (act _ (by omega)).1)
+    rw [etail] at sn sp
+    have first : (l ++ List.range' o m)[0]'(by simp; omega) = l[0] := by
+      rw [List.getElem_append_left]
+    refine ⟨h', e, ?_, ?_, ?_⟩
+    · rw [ehd, List.head?_append, List.head?_eq_getElem? (l := l), List.getElem?_eq_getElem hpos]
+      rfl
+    · apply CycNext.append_range hm
+      · intro a b ha hb s
+        have := (act a ha).2
+        rw [sn _ (act a ha).1, if_neg (by omega),
+          if_neg (fun em => by have := (List.getElem_inj nd).1 em; omega)]
+        exact cn a b ha hb (Or.inl s)
+      · intro j hj
+        have := (act _ (by omega : l.length - 1 < l.length)).2
+        rw [sn _ (hnewA j (by omega)), if_neg (by omega), if_neg (by omega), hn j hj]
+      · rw [sn _ aE, if_pos rfl, first]
+      · intro _
+        have := (act _ (by omega : l.length - 1 < l.length)).2
+        rw [sn _ (act _ (by omega)).1, if_neg (by omega), if_pos rfl]
+    · apply CycPrev.append_range hm
+      · intro a b ha hb s
+        have := (act b hb).2
+        rw [sp _ (act b hb).1,
+          if_neg (fun em => by have := (List.getElem_inj nd).1 em; omega), if_neg (by omega)]
+        exact cp a b ha hb (Or.inl s)
+      · intro j hj
+        have := (act 0 hpos).2
+        rw [sp (o + j + 1) (by rw [Nat.add_assoc]; exact hnewA (j + 1) (by omega)), if_neg (by omega), if_neg (by omega), hp j hj]
+      · rw [first, sp _ (act 0 hpos).1, if_pos rfl]
+      · intro _
+        have := (act 0 hpos).2
+        rw [sp _ aO, if_neg (by omega), if_pos rfl]
+
+theorem CycNext.congr {f f' : Nat → Nat} {l : List Nat} (c : CycNext f l)
+    (hc : ∀ x ∈ l, f' x = f x) : CycNext f' l := by
+  intro a b ha hb s
+  rw [hc _ (List.getElem_mem ha)]; exact c a b ha hb s
+
+theorem CycPrev.congr {f f' : Nat → Nat} {l : List Nat} (c : CycPrev f l)
+    (hc : ∀ x ∈ l, f' x = f x) : CycPrev f' l := by
+  intro a b ha hb s
+  rw [hc _ (List.getElem_mem hb)]; exact c a b ha hb s
+
+/-- Success of `pushBlock` and the links of the result (flags come from `pushBlock_ok`). -/
+theorem Helper.pushBlock_links {h : Helper} {vac : List Nat} (wf : h.WF) (ll : h.LL vac)
+    (hsz : h.numElements ≤ u32Max - h.blockLen) :
+    ∃ h', h.pushBlock = .ok h' ∧
+      h'.head = (vac.filter (fun j => decide ((h.numBlocks + 1 - h.nfb) * h.blockLen ≤ j)) ++
+        List.range' (h.numBlocks * h.blockLen) h.blockLen).head? ∧
+      CycNext h'.nextOf (vac.filter (fun j => decide ((h.numBlocks + 1 - h.nfb) * h.blockLen ≤ j))
+        ++ List.range' (h.numBlocks * h.blockLen) h.blockLen) ∧
+      CycPrev h'.prevOf (vac.filter (fun j => decide ((h.numBlocks + 1 - h.nfb) * h.blockLen ≤ j))
+        ++ List.range' (h.numBlocks * h.blockLen) h.blockLen) := by
+  obtain ⟨h1, ec, ll1⟩ := Helper.closedOf_ll wf ll
+  obtain ⟨_, _, c3, c4, c5, wf1⟩ := Helper.closedOf_ok wf ec
+  have hvmem : ∀ x ∈ vac.filter (fun j => decide ((h.numBlocks + 1 - h.nfb) * h.blockLen ≤ j)),
+      (h.numBlocks + 1 - h.nfb) * h.blockLen ≤ x ∧ x < h.numBlocks * h.blockLen := by
+    intro x hx
+    rw [List.mem_filter] at hx
+    exact ⟨by simpa using hx.2, (ll.active hx.1).2⟩
+  generalize vac.filter (fun j => decide ((h.numBlocks + 1 - h.nfb) * h.blockLen ≤ j)) = vac1
+    at ll1 hvmem
+  have wf1' : ({ h1 with numBlocks := h1.numBlocks + 1 } : Helper).WF :=
+    ⟨wf1.blockLen_pos, wf1.nfb_pos, wf1.size_next, wf1.size_prev, wf1.size_usedBase,
+      wf1.size_usedIndex⟩
+  have eO : h1.numElements = h.numBlocks * h.blockLen := by
+    unfold Helper.numElements; rw [c5, c3]
+  have hA : (h.numBlocks + 1 - h.nfb) * h.blockLen ≤ h.numBlocks * h.blockLen :=
+    Nat.mul_le_mul_right _ (by have := wf.nfb_pos; omega)
+  have hE : (h.numBlocks + 1) * h.blockLen = h.numBlocks * h.blockLen + h.blockLen := by
+    rw [Nat.add_mul, Nat.one_mul]
+  have act1' : ∀ x, ({ h1 with numBlocks := h1.numBlocks + 1 } : Helper).Active x ↔
+      (h.numBlocks + 1 - h.nfb) * h.blockLen ≤ x ∧ x < (h.numBlocks + 1) * h.blockLen := by
+    intro x
+    unfold Helper.Active Helper.activeStart
+    simp only
+    rw [c3, c4, c5]
+  obtain ⟨h2, er⟩ := Helper.resetLoop_succ (n := h1.blockLen) (idx := h1.numElements)
+    (h := { h1 with numBlocks := h1.numBlocks + 1 }) (by
+      intro m lo hi
+      rw [act1']; rw [eO] at lo hi; rw [c3] at hi; omega)
+  obtain ⟨r1, _, _, r4, r5, r6, r7, wf2⟩ := Helper.resetLoop_ok wf1' er
+  obtain ⟨k1, k2, k3⟩ := Helper.resetLoop_links wf1' er
+  have act2 : ∀ x, h2.Active x ↔
+      (h.numBlocks + 1 - h.nfb) * h.blockLen ≤ x ∧ x < (h.numBlocks + 1) * h.blockLen :=
+    fun x => (Helper.Active_congr r5 r6 r7 x).trans (act1' x)
+  have hv1 : ∀ x ∈ vac1, h2.Active x ∧ x < h.numBlocks * h.blockLen := by
+    intro x hx
+    have := hvmem x hx
+    exact ⟨(act2 x).2 ⟨this.1, by omega⟩, this.2⟩
+  have keep : ∀ x ∈ vac1, h2.nextOf x = h1.nextOf x ∧ h2.prevOf x = h1.prevOf x := by
+    intro x hx
+    apply k1 x
+    intro m lo hi em
+    have := Helper.active_mod_inj wf1' (r1 m lo hi)
+      ((act1' x).2 ((act2 x).1 (hv1 x hx).1)) em
+    have := (hv1 x hx).2
+    rw [eO] at lo
+    omega
+  obtain ⟨h', es, ehd, cn', cp'⟩ := Helper.splice_links (h2 := h2) (l := vac1)
+    (o := h.numBlocks * h.blockLen) (m := h.blockLen) wf2 wf.blockLen_pos hv1
+    (fun j hj => (act2 _).2 (by omega)) ll1.nodup (by rw [k3]; exact ll1.head)
+    (ll1.cnext.congr (fun x hx => (keep x hx).1)) (ll1.cprev.congr (fun x hx => (keep x hx).2))
+    (by
+      intro j hj
+      have := (k2 (h.numBlocks * h.blockLen + j) (by rw [eO]; omega)
+        (by rw [eO, c3]; omega)).1
+      exact this)
+    (by
+      intro j hj
+      have := (k2 (h.numBlocks * h.blockLen + j + 1) (by rw [eO]; omega)
+        (by rw [eO, c3]; omega)).2
+      rw [this, if_neg (by omega)]; rfl)
+  refine ⟨h', ?_, ehd, cn', cp'⟩
+  rw [Helper.pushBlock_eq, if_neg (by omega), ec]
+  simp only
+  rw [er]
+  simp only
+  rw [eO, c3]
+  exact es
+
+theorem Helper.pushBlock_ll {h : Helper} {vac : List Nat} (wf : h.WF) (ll : h.LL vac)
+    (hsz : h.numElements ≤ u32Max - h.blockLen) :
+    ∃ h', h.pushBlock = .ok h' ∧
+      h'.LL (vac.filter (fun j => decide (h'.activeStart * h.blockLen ≤ j)) ++
+        List.range' (h.numBlocks * h.blockLen) h.blockLen) := by
+  obtain ⟨h', e, ehd, cn, cp⟩ := Helper.pushBlock_links wf ll hsz
+  obtain ⟨enb, ebl, enfb, _, fresh, old⟩ := Helper.pushBlock_ok wf e
+  have eas : h'.activeStart = h.numBlocks + 1 - h.nfb := by
+    unfold Helper.activeStart; rw [enb, enfb]
+  refine ⟨h', e, ?_⟩
+  rw [eas]
+  have hA : (h.numBlocks + 1 - h.nfb) * h.blockLen ≤ h.numBlocks * h.blockLen :=
+    Nat.mul_le_mul_right _ (by have := wf.nfb_pos; omega)
+  have hA0 : h.activeStart * h.blockLen ≤ (h.numBlocks + 1 - h.nfb) * h.blockLen :=
+    Nat.mul_le_mul_right _ (by unfold Helper.activeStart; omega)
+  have hE : (h.numBlocks + 1) * h.blockLen = h.numBlocks * h.blockLen + h.blockLen := by
+    rw [Nat.add_mul, Nat.one_mul]
+  have act' : ∀ x, h'.Active x ↔
+      (h.numBlocks + 1 - h.nfb) * h.blockLen ≤ x ∧ x < (h.numBlocks + 1) * h.blockLen := by
+    intro x
+    unfold Helper.Active
+    rw [eas, enb, ebl]
+  refine ⟨?_, ?_, ehd, cycNext_iff.1 cn, cycPrev_iff.1 cp⟩
+  · rw [List.pairwise_append]
+    refine ⟨ll.sorted.filter _, List.pairwise_lt_range', ?_⟩
+    intro a ha b hb
+    rw [List.mem_filter] at ha
+    rw [List.mem_range'_1] at hb
+    have := (ll.active ha.1).2
+    omega
+  · intro j
+    rw [List.mem_append, List.mem_filter, List.mem_range'_1, ll.mem, act']
+    simp only [decide_eq_true_eq]
+    constructor
+    · rintro (⟨⟨aj, uj⟩, lo⟩ | ⟨lo, hi⟩)
+      · have := aj.2
+        have a' : h'.Active j := (act' j).2 ⟨lo, by omega⟩
+        exact ⟨⟨lo, by omega⟩, by rw [(old j a' aj.2).1]; exact uj⟩
+      · exact ⟨⟨by omega, by omega⟩, (fresh j lo (by omega)).1⟩
+    · rintro ⟨⟨lo, hi⟩, uj⟩
+      by_cases hj : j < h.numBlocks * h.blockLen
+      · left
+        refine ⟨⟨⟨by omega, hj⟩, ?_⟩, lo⟩
+        rw [← (old j ((act' j).2 ⟨lo, hi⟩) hj).1]; exact uj
+      · right; omega
+
+/-- The only non-`ok` outcome of `pushBlock` on a linked helper is the (non-panic) scale error. -/
+theorem Helper.pushBlock_scale {h : Helper} (hsz : h.numElements > u32Max - h.blockLen) :
+    h.pushBlock = .error .automatonScale := by
+  rw [Helper.pushBlock_eq, if_pos hsz]
+
+/-! ### 5. `vacant` -/
+
+theorem Helper.vacantFrom_ll {h : Helper} {vac : List Nat} (ll : h.LL vac)
+    (hne : 0 < vac.length) :
+    ∀ fuel k (hk : k < vac.length), vac.length - k ≤ fuel →
+      h.vacantFrom vac[0] fuel vac[k] = .ok (vac.drop k) := by
+  have cn := ll.cnext
+  have nd := ll.nodup
+  intro fuel
+  induction fuel with
+  | zero => intro k hk hf; omega
+  | succ fuel ih =>
+    intro k hk hf
+    unfold Helper.vacantFrom
+    rw [Helper.off_active (ll.active (List.getElem_mem hk))]
+    simp only
+    rw [List.drop_eq_getElem_cons hk]
+    by_cases e : k + 1 = vac.length
+    · have enx : h.next.getD (vac[k] % h.cap) 0 = vac[0] := cn k 0 hk hne (Or.inr ⟨e, rfl⟩)
+      rw [enx, if_pos rfl, List.drop_eq_nil_of_le (by omega)]
+    · have enx : h.next.getD (vac[k] % h.cap) 0 = vac[k + 1] :=
+        cn k (k + 1) hk (by omega) (Or.inl rfl)
+      rw [enx, if_neg (fun em => by have := (List.getElem_inj nd).1 em; omega),
+        ih (k + 1) (by omega) (by omega)]
+
+theorem Helper.vacant_ll {h : Helper} {vac : List Nat} (wf : h.WF) (ll : h.LL vac) :
+    h.vacant = .ok vac := by
+  unfold Helper.vacant
+  by_cases hn0 : vac.length = 0
+  · have : vac = [] := List.length_eq_zero_iff.1 hn0
+    subst this
+    have hh : h.head = none := ll.head
+    rw [hh]
+  · have hpos : 0 < vac.length := by omega
+    have hh : h.head = some vac[0] := by
+      rw [ll.head, List.head?_eq_getElem?, List.getElem?_eq_getElem]
+    rw [hh]
+    simp only
+    have := Helper.vacantFrom_ll ll hpos (h.cap + 1) 0 hpos
+      (by have := ll.length_le wf; omega)
+    rw [this, List.drop_zero]
+
+/-! ### 6. Initial state -/
+
+theorem Helper.new_ll {bl nfb : Nat} {h : Helper} (e : Helper.new bl nfb = .ok h) : h.LL [] := by
+  obtain ⟨_, n0, _, _, hd, _, _⟩ := Helper.new_ok e
+  refine ⟨List.Pairwise.nil, ?_, hd, fun k hk => by simp at hk, fun k hk => by simp at hk⟩
+  intro i
+  simp only [List.not_mem_nil, false_iff]
+  rintro ⟨a, _⟩
+  have := a.2
+  rw [n0, Nat.zero_mul] at this
+  omega
+
+theorem range'_erase_head {s n : Nat} (hn : 0 < n) :
+    (List.range' s n).erase s = List.range' (s + 1) (n - 1) := by
+  cases n with
+  | zero => omega
+  | succ n => simp [List.range'_succ]
+
+/-- `new → pushBlock → useIndex 0 → useIndex 1` never fails (for a capacity within `u32`) and
+leaves the indices `2 … bl-1` linked in order. -/
+theorem Helper.init_ll {bl nfb : Nat} (hbl : 2 ≤ bl) (hnfb : 1 ≤ nfb) (hcap : bl * nfb ≤ u32Max) :
+    ∃ h0 h1 h2 h3, Helper.new bl nfb = .ok h0 ∧ h0.pushBlock = .ok h1 ∧
+      h1.useIndex 0 = .ok h2 ∧ h2.useIndex 1 = .ok h3 ∧ h3.WF ∧
+      h3.LL (List.range' 2 (bl - 2)) := by
+  have hpos : 0 < bl * nfb := Nat.mul_pos (by omega) (by omega)
+  obtain ⟨h0, e0⟩ : ∃ h0, Helper.new bl nfb = .ok h0 := by
+    unfold Helper.new
+    simp only
+    rw [if_neg (by omega), if_neg (by omega)]
+    exact ⟨_, rfl⟩
+  obtain ⟨wf0, n0, b0, _, _, _, _⟩ := Helper.new_ok e0
+  obtain ⟨h1, e1, ll1⟩ := Helper.pushBlock_ll wf0 (Helper.new_ll e0) (by
+    unfold Helper.numElements; rw [n0, Nat.zero_mul]; exact Nat.zero_le _)
+  rw [n0, b0, Nat.zero_mul, List.filter_nil, List.nil_append] at ll1
+  have wf1 := (Helper.pushBlock_ok wf0 e1).2.2.2.1
+  obtain ⟨h2, e2, ll2⟩ := Helper.useIndex_ll (i := 0) wf1 ll1 (by
+    rw [List.mem_range'_1]; omega)
+  rw [range'_erase_head (by omega)] at ll2
+  have wf2 := (Helper.useIndex_ok wf1 e2).2.2.2.2.2.2.2.2
+  obtain ⟨h3, e3, ll3⟩ := Helper.useIndex_ll (i := 1) wf2 ll2 (by
+    rw [List.mem_range'_1]; omega)
+  rw [range'_erase_head (by omega)] at ll3
+  have wf3 := (Helper.useIndex_ok wf2 e3).2.2.2.2.2.2.2.2
+  have e22 : bl - 1 - 1 = bl - 2 := by omega
+  rw [e22] at ll3
+  exact ⟨h0, h1, h2, h3, e0, e1, e2, e3, wf3, ll3⟩
+
+/-! ### 7. Queries never panic on active indices -/
+
+theorem Helper.isUsedIndex_active {h : Helper} {i : Nat} (a : h.Active i) :
+    ∃ b, h.isUsedIndex i = .ok b := ⟨_, Helper.isUsedIndex_ok.2 ⟨a, rfl⟩⟩
+
+theorem Helper.isUsedBase_active {h : Helper} {i : Nat} (a : h.Active i) :
+    ∃ b, h.isUsedBase i = .ok b := ⟨_, Helper.isUsedBase_ok.2 ⟨a, rfl⟩⟩
+
+theorem Helper.useBase_active {h : Helper} {i : Nat} (a : h.Active i) :
+    ∃ h', h.useBase i = .ok h' := by
+  unfold Helper.useBase
+  rw [Helper.off_active a]
+  exact ⟨_, rfl⟩
+
+/-- `useBase` does not touch the vacant list. -/
+theorem Helper.useBase_ll {h h' : Helper} {vac : List Nat} {i : Nat} (ll : h.LL vac)
+    (e : h.useBase i = .ok h') : h'.LL vac := by
+  unfold Helper.useBase at e
+  split at e
+  · cases e
+  · simp only [Except.ok.injEq] at e; subst e
+    exact ⟨ll.sorted, ll.mem, ll.head, ll.next, ll.prev⟩
+
+theorem Helper.unusedBaseFrom_active {h : Helper} {n base : Nat}
+    (ha : ∀ j, base ≤ j → j < base + n → h.Active j) : ∃ r, h.unusedBaseFrom n base = .ok r := by
+  induction n generalizing base with
+  | zero => exact ⟨none, rfl⟩
+  | succ n ih =>
+    unfold Helper.unusedBaseFrom
+    rw [Helper.isUsedBase_ok.2 ⟨ha base (Nat.le_refl _) (by omega), rfl⟩]
+    cases h.usedB base with
+    | false => exact ⟨_, rfl⟩
+    | true => exact ih (fun j lo hi => ha j (by omega) (by omega))
+
+theorem Helper.unusedBaseInBlock_active {h : Helper} {b : Nat}
+    (ha : ∀ j, b * h.blockLen ≤ j → j < (b + 1) * h.blockLen → h.Active j) :
+    ∃ r, h.unusedBaseInBlock b = .ok r := by
+  unfold Helper.unusedBaseInBlock
+  apply Helper.unusedBaseFrom_active
+  intro j lo hi
+  exact ha j lo (by rw [Nat.add_mul, Nat.one_mul]; exact hi)
+
+#print axioms Helper.useIndex_ll
+#print axioms Helper.closeLoop_ll
+#print axioms Helper.pushBlock_ll
+#print axioms Helper.vacant_ll
+#print axioms Helper.init_ll
+#print axioms Helper.unusedBaseInBlock_active
 
 end Daac
